@@ -187,7 +187,7 @@ pub fn run(ctx: &mut Ctx) {
         }
     }
     ctx.stratum("R-random-comparator-lists", false);
-    let nr = ctx.tier.pick(40_000u64, 4_000_000u64);
+    let nr = ctx.tier.n(40_000, 4_000_000);
     for i in 0..nr {
         if !ctx.take() {
             continue;
@@ -202,7 +202,7 @@ pub fn run(ctx: &mut Ctx) {
         judge_pair(ctx, &a, &b, "random");
     }
     ctx.stratum("T-triples-all-orders", false);
-    let nt = ctx.tier.pick(5_000u64, 500_000u64);
+    let nt = ctx.tier.n(5_000, 500_000);
     for i in 0..nt {
         if !ctx.take() {
             continue;
